@@ -34,6 +34,12 @@ pub fn replay_e3(file: &Value, build: impl Fn(&Value) -> Option<Scenario>) -> i3
     );
     job.scenario = scn;
     job.initial = choices;
+    job.on_blocked = std::sync::Arc::new(|log: Vec<String>| {
+        let mut v = zvcore::explore::Verdict::default();
+        v.violate("thread-blocked", "the execution ended with the only thread about to park for ever on a synchronous lock wait (saa::Lock::lock_sync) whose owner is a suspended task of the same thread");
+        v.log = log;
+        v
+    });
     let mut ck = zvcore::evidence::Check::new("replay", zvcore::evidence::Tier::Quick, "model_checking");
     ck.threads = 1;
     let rep = crate::e3::run_jobs_into(&mut ck, vec![job], true);
